@@ -17,18 +17,31 @@ theorem clean_init : Clean {} := by simp [Clean]
 
 /-- `Clean` is preserved by every call, whatever the peer does -/
 theorem clean_step (cred : Cred) (st : CState) (c : Call) (h : Clean st) : Clean (step cred st c).1 := by
-  sorry
+  have hq : ∀ n q, st.conn = some (n, q) → q = [] := by
+    intro n q hc; simpa [Clean, hc] using h
+  have := step_clean cred st c hq
+  unfold Clean
+  split
+  · trivial
+  · next n q hc => exact this n q hc
 
 /-- hence it holds after every history of calls -/
 theorem clean_reachable (cred : Cred) (cs : List Call) :
     Clean (cs.foldl (fun st c => (step cred st c).1) {}) := by
-  sorry
+  suffices hs : ∀ (cs : List Call) (st : CState), Clean st → Clean (cs.foldl (fun st c => (step cred st c).1) st) from
+    hs cs {} clean_init
+  intro cs
+  induction cs with
+  | nil => intro st h; exact h
+  | cons c cs ih => intro st h; exact ih _ (clean_step cred st c h)
 
 /-- pairing: from a clean state, a successful `SendMultiple` returns exactly the reply the peer produced for
     this very request (the script's `user` reply), never anything that was pending before -/
 theorem pairing (cred : Cred) (st : CState) (reqs ms : List Msg) (sc : Script) (h : Clean st)
     (hok : (sendMultiple cred st reqs sc).2.1 = .ok ms) : sc.user = .frame ms := by
-  sorry
+  have hq : ∀ n q, st.conn = some (n, q) → q = [] := by
+    intro n q hc; simpa [Clean, hc] using h
+  exact sendMultiple_pairing cred st reqs ms sc hq hok
 
 /-- the frames one call puts on the wire: possibly the authentication request, then at most once the user
     request, nothing else, in that order -/
@@ -36,19 +49,29 @@ theorem sent_once_in_order (cred : Cred) (st : CState) (reqs : List Msg) (sc : S
     let sent := (sendMultiple cred st reqs sc).2.2.filterMap (fun e => match e with | .sent _ ms => some ms | _ => none)
     sent = [] ∨ sent = [authRequest cred.user cred.password] ∨ sent = [reqs] ∨
       sent = [authRequest cred.user cred.password, reqs] := by
-  sorry
+  exact sendMultiple_sent cred st reqs sc
 
 /-- a call that fails with a transport or protocol error (anything but a refused request or a refused
     authentication) leaves the client disconnected and unauthenticated -/
+-- STATEMENT CHANGED: added the hypothesis `hinv` (the state invariant `recovery` and `C09.no_panic` also
+-- assume; true of every reachable state). Without it the statement is false: from
+-- `st = { conn := none, authed := true }` (which is `Clean`) a call with `sc.dialOk = false` fails with
+-- `.err .io` and returns `st` unchanged, so `authed` is still `true`.
 theorem failure_disconnects (cred : Cred) (st : CState) (reqs : List Msg) (sc : Script) (e : ErrClass)
     (h : Clean st)
+    (hinv : st.conn = none → st.authed = false)
     (hres : (sendMultiple cred st reqs sc).2.1 = .err e)
     (hnot : e ≠ .auth ∧ e ≠ .typeMismatch ∧ e ≠ .notARequest ∧ e ≠ .dataLimit) :
     (sendMultiple cred st reqs sc).1.conn = none ∧ (sendMultiple cred st reqs sc).1.authed = false := by
-  sorry
+  have _ := h  -- `h` is not needed by the proof; kept from the given statement
+  refine sendMultiple_failure cred st reqs sc e hinv hres ⟨hnot.1, ?_⟩
+  rintro (rfl | rfl | rfl)
+  · exact hnot.2.1 rfl
+  · exact hnot.2.2.2 rfl
+  · exact hnot.2.2.1 rfl
 
 theorem disconnect_resets (st : CState) : (disconnect st).1.conn = none ∧ (disconnect st).1.authed = false := by
-  sorry
+  exact disconnect_conn_authed st
 
 /-- a healthy peer: reachable, reads, grants authentication with a non-zero level, answers with a non-empty frame -/
 def Healthy (sc : Script) (ms : List Msg) : Prop :=
@@ -57,15 +80,35 @@ def Healthy (sc : Script) (ms : List Msg) : Prop :=
 
 /-- recovery: from any clean state — in particular a disconnected one — a valid request against a healthy
     peer succeeds with that peer's reply -/
+-- STATEMENT CHANGED: added the hypothesis `hcred` (the authentication request built from the configured
+-- credentials passes request validation; by `validateRequests_authRequest` this says
+-- `cred.user.length + cred.password.length + 14 ≤ 65528`). Without it the statement is false: with a
+-- 65 520-byte user name the authentication request is refused with `.err .dataLimit` before anything is sent.
 theorem recovery (cred : Cred) (st : CState) (reqs ms : List Msg) (sc : Script) (h : Clean st)
     (hinv : st.conn = none → st.authed = false)
+    (hcred : validateRequests (authRequest cred.user cred.password) = .ok ())
     (hv : validateRequests reqs = .ok ()) (hh : Healthy sc ms) :
     (sendMultiple cred st reqs sc).2.1 = .ok ms := by
-  sorry
+  have _ := hinv  -- `hinv` is not needed by the proof; kept from the given statement
+  have hq : ∀ n q, st.conn = some (n, q) → q = [] := by
+    intro n q hc; simpa [Clean, hc] using h
+  obtain ⟨hd, hw, hms, hu, lvl, hl, ha⟩ := hh
+  cases ms with
+  | nil => exact absurd rfl hms
+  | cons m ms => exact sendMultiple_recovery cred st reqs sc m ms lvl hq hcred hv hd hw hu hl ha
 
 -- non-vacuity: a healthy script exists and the premises of `recovery` are met by the initial state
 example : Healthy { auth := .frame [.mk tagAuth Gen.C.UChar8 (.num .u8 10)], user := .frame [.mk 8388610 3 (.num .u8 1)] }
     [.mk 8388610 3 (.num .u8 1)] := by
   refine ⟨rfl, rfl, by simp, rfl, 10, by decide, rfl⟩
+
+#print axioms clean_init
+#print axioms clean_step
+#print axioms clean_reachable
+#print axioms pairing
+#print axioms sent_once_in_order
+#print axioms failure_disconnects
+#print axioms disconnect_resets
+#print axioms recovery
 
 end Rscp.Props.C08
